@@ -125,6 +125,7 @@ SPELL = collections.OrderedDict([
     ('numsign', ['plus']),
     ('valueparm', ['VALUE=DATE-TIME']),
     ('tzids', ['mapping', 'callable']),
+    ('tzidname', ['hyphen']),            # a TZID spelled with '-' and '+' (Etc/GMT-3, America/Port-au-Prince), resolved through tzids
     ('opt', ['forceset', 'compatible', 'cache', 'ignoretz', 'unfold']),
 ])
 
@@ -190,13 +191,14 @@ def render(case, sp, term):
     kind = case.get('kind')
     st = case['start']
     dtmode = sp.get('dtstart', 'inline')
+    tzid_name = 'Etc-Test/New-York+1' if sp.get('tzidname') else rules.TZFILE_NAME
     lines = []
     if dtmode in ('inline', 'kwarg+inline'):
         vp = (';' + sp['valueparm']) if sp.get('valueparm') else ''
         if kind == 'utc':
             lines.append('DTSTART%s:%s' % (vp, fmt_dt(st, zulu=True)))
         elif kind == 'tzfile':
-            lines.append('DTSTART;TZID=%s%s:%s' % (rules.TZFILE_NAME, vp, fmt_dt(st)))
+            lines.append('DTSTART;TZID=%s%s:%s' % (tzid_name, vp, fmt_dt(st)))
         elif kind == 'date':
             lines.append('DTSTART;VALUE=DATE:%04d%02d%02d' % (st.year, st.month, st.day))
         else:
@@ -206,12 +208,12 @@ def render(case, sp, term):
         if dtmode == 'kwarg+inline':
             v = v.replace(year=1971) if isinstance(v, D.datetime) else v.replace(year=1971)   # must be overridden by the text
         kw['dtstart'] = v
-    if kind == 'tzfile' and sp.get('tzids') and dtmode != 'kwarg':
+    if kind == 'tzfile' and (sp.get('tzids') or sp.get('tzidname')) and dtmode != 'kwarg':
         z = zones.build(('gettz', rules.TZFILE_NAME))
-        if sp['tzids'] == 'mapping':
-            kw['tzids'] = {rules.TZFILE_NAME: z}
+        if sp.get('tzids', 'mapping') == 'mapping':
+            kw['tzids'] = {tzid_name: z}
         else:
-            kw['tzids'] = lambda name, _z=z: _z if name == rules.TZFILE_NAME else None
+            kw['tzids'] = lambda name, _z=z: _z if name == tzid_name else None
     lines.append(line)
     multi = len(lines) > 1
     if sp.get('case') == 'lower':
